@@ -44,11 +44,19 @@ def install(ctx):
 
 def cases(ctx):
     rng = ctx.rng
-    for i in range(ctx.n(6000, 20000)):
+    nb = ctx.n(6000, 20000)
+    for i in range(nb):
+        if i in (nb // 3, 2 * nb // 3):  # two big problems per run: (samples x targets) beyond 2**20
+            N = int(rng.integers(3000, 7000))
+            T = int(rng.integers(300, 700))
+            x = np.cumsum(rng.uniform(0.1, 1.0, N))
+            y = np.cumsum(rng.normal(0, 1, N)) if i == nb // 3 else rng.normal(0, 1, N)  # random walk / white noise: many crossings
+            yield {"mode": "curve", "kind": "large", "x": x, "y": y, "t": np.sort(rng.uniform(y.min() - 0.1, y.max() + 0.1, T)), "form": "array"}
+            continue
         mode = "curve" if rng.random() < 0.93 else "tam"
         if mode == "curve":
             N = int(rng.integers(2, 13))
-            kind = str(rng.choice(["random", "lattice", "dupx", "rounded", "ulp"]))
+            kind = str(rng.choice(["random", "lattice", "dupx", "rounded", "ulp", "intdtype", "endtouch"]))
             if kind == "random":
                 x, y = np.sort(rng.normal(0, 1, N)), rng.normal(0, 1, N)
             elif kind == "lattice":
@@ -56,6 +64,11 @@ def cases(ctx):
             elif kind == "dupx":
                 x = np.sort(rng.integers(0, 6, N)).astype(float)
                 y = rng.integers(0, 4, 7).astype(float)[x.astype(int)]
+            elif kind == "intdtype":  # integer x and y (true division must not truncate)
+                x, y = np.arange(N) * int(rng.integers(1, 4)), rng.integers(0, 5, N)
+            elif kind == "endtouch":  # the extreme value is reached only at the first / last sample
+                x = np.sort(rng.uniform(0, 5, N))
+                y = np.sort(rng.uniform(0, 1, N)) if rng.random() < 0.5 else np.sort(rng.uniform(0, 1, N))[::-1].copy()
             elif kind == "rounded":
                 x, y = np.sort(rng.uniform(0, 1, N)), np.round(rng.uniform(0, 1, N), 1)
             else:  # valleys/peaks within a few ulp of a target
@@ -68,7 +81,9 @@ def cases(ctx):
                     for _ in range(abs(k)):
                         v = np.nextafter(v, np.inf if k > 0 else -np.inf)
                     y[j] = v
-            ts = np.concatenate([rng.choice(y, 2), rng.uniform(y.min() - 0.5, y.max() + 0.5, 3), [y.min() - 1, y.max() + 1, y.min(), y.max(), 1.0]])
+            yf = np.asarray(y, dtype=float)
+            ts = np.concatenate([rng.choice(yf, 2), rng.uniform(yf.min() - 0.5, yf.max() + 0.5, 3), [yf.min() - 1, yf.max() + 1, yf.min(), yf.max(), 1.0]])
+            ts = ts[rng.permutation(len(ts))]
             yield {"mode": "curve", "kind": kind, "x": x, "y": y, "t": ts, "form": str(rng.choice(["array", "array", "list", "scalar"]))}
         else:
             pos, neg, kind = gen.scores(rng, min_pos=1, min_neg=1, maxn=15, kinds=["gauss", "lattice", "uniform01", "pool5", "intdtype"])
@@ -97,11 +112,13 @@ def execute(ctx, case):
         else:
             U.invert_pl_function(x, y, ts)
         sess.sig_counts[("case", case["kind"], form)] += 1
-        return bool(np.any((ts >= y.min()) & (ts <= y.max())) and len(np.unique(y)) > 1)
+        return bool(np.any((ts >= np.min(y)) & (ts <= np.max(y))) and len(np.unique(y)) > 1)
     s = Scores(case["pos"], case["neg"], nb_easy_pos=case["ep"], nb_easy_neg=case["en"], score_class=case["sc"], equal_class=case["ec"])
     metric = case["metric"]
     m = (lambda obj, thr: obj.fnr(thr) - 0.5 * obj.fpr(thr)) if metric == "callable" else metric
     points = case["pts"] if isinstance(case["points"], str) else case["points"]
+    if isinstance(points, np.ndarray) and int(case["pts"].size) % 2:
+        points = points.tolist()  # user-supplied points as a plain list
     target = case["target"]
     sess.ipl_calls.clear()
     res = s.threshold_at_metric(target, m, points)  # the inversion itself is judged by M-ipl
